@@ -654,12 +654,56 @@ def attribute_out_of_domain(chk: Check, c: dict) -> None:
         chk.known_hits.setdefault("F02e", []).append(c)
         return
     dangling = any(n not in spec for n in all_names(inp["schemas"])[0])
+    if capture_possible(inp["schemas"]) and "F02b" in chk.known:
+        chk.known_hits.setdefault("F02b", []).append(c)
+        return
     if has_ref_cycle(spec) and not isinstance(c["obs"], str) and "F02a" in chk.known:
         chk.known_hits.setdefault("F02a", []).append(c)
         return
     if dangling:
         return  # a dangling $ref is not a valid document; nothing is claimed
     chk.violation(c, "(outside the model's name domain) " + "; ".join(c["oracle_fail"]))
+
+
+def capture_possible(schemas: list) -> bool:
+    """Python-side version of Parser.no_capture with the REAL sanitiser: two nodes (declared or inline) would be
+    parsed/registered under the same (sanitised) name."""
+    from pyopenapi_gen.core.utils import NameSanitizer
+    cls = NameSanitizer.sanitize_class_name
+    names: list[str] = []
+
+    def ctx(parent, key):
+        sp = cls(key)
+        if parent:
+            return sp if sp.lower().startswith(parent.lower()) else parent + sp
+        return sp
+
+    def walk(name, nd):
+        if name:
+            names.append(cls(name))
+        k = nd[0]
+        if k == "obj":
+            for key, pn in nd[1]:
+                if pn[0] == "ref":
+                    continue
+                simple = pn[0] == "prim" or (pn[0] == "arr" and pn[1][0] in ("ref", "prim", "enum"))
+                if pn[0] == "obj" and name:
+                    walk(cls(name) + cls(key), pn)
+                elif simple:
+                    walk(None, pn)
+                else:
+                    walk(ctx(cls(name) if name else None, key), pn)
+        elif k == "arr":
+            x = nd[1]
+            walk(None if x[0] in ("ref", "prim", "enum") else cls((name or "AnonymousArray") + "Item"), x)
+        elif k in ("oneof", "anyof", "allof"):
+            for x in nd[1]:
+                walk(None, x)
+        elif k == "map":
+            walk(None, nd[1])
+    for n, nd in schemas:
+        walk(n, nd)
+    return len(names) != len(set(names))
 
 
 def has_ref_cycle(spec: dict) -> bool:
